@@ -47,6 +47,9 @@ type spec struct {
 	omit       []string
 	tamperSig  bool
 	second     *spec // a second presentation in the same assertion (array)
+	nested     bool  // with second: the submission maps the descriptor into presentation mapIdx through path_nested
+	mapIdx     int
+	swap       bool // with second: the second presentation comes first in the array
 	dpop       *iamflow.Holder
 }
 
@@ -106,11 +109,19 @@ func (w *world) build(s *spec) (url.Values, map[string]string) {
 	assertion := w.signVP(s)
 	path := s.descPath
 	if s.second != nil {
-		assertion = `["` + assertion + `","` + w.signVP(s.second) + `"]`
+		if s.swap {
+			assertion = `["` + w.signVP(s.second) + `","` + assertion + `"]`
+		} else {
+			assertion = `["` + assertion + `","` + w.signVP(s.second) + `"]`
+		}
 	}
 	sub := map[string]any{"id": "sub-" + s.nonce, "definition_id": s.defID, "descriptor_map": []any{}}
 	if !s.noDesc {
 		sub["descriptor_map"] = []any{map[string]any{"id": s.descID, "format": s.credFormat, "path": path}}
+		if s.second != nil && s.nested {
+			sub["descriptor_map"] = []any{map[string]any{"id": s.descID, "format": "jwt_vp", "path": fmt.Sprintf("$[%d]", s.mapIdx),
+				"path_nested": map[string]any{"id": s.descID, "format": s.credFormat, "path": path}}}
+		}
 	}
 	sj, _ := json.Marshal(sub)
 	f := url.Values{"grant_type": {"vp_token-bearer"}, "assertion": {assertion}, "presentation_submission": {string(sj)}, "scope": {s.scope}, "client_id": {s.clientID}}
@@ -151,6 +162,15 @@ func defects(w *world, revoked, expired json.RawMessage) []defect {
 		{"wrong-audience", func(w *world, s *spec) bool { s.aud = []string{w.Client.URL}; return true }},
 		{"foreign-audience", func(w *world, s *spec) bool { s.aud = []string{"https://other.example/oauth2/verifier"}; return true }},
 		{"missing-audience", func(w *world, s *spec) bool { s.aud = nil; return true }},
+		// another authorization server whose identifier merely starts with this one's
+		{"audience-text-extension", func(w *world, s *spec) bool { s.aud = []string{w.Verifier.URL + "2"}; return true }},
+		{"audience-text-extension-dash", func(w *world, s *spec) bool { s.aud = []string{w.Verifier.URL + "-east"}; return true }},
+		{"audience-text-prefix", func(w *world, s *spec) bool { s.aud = []string{w.Verifier.URL[:len(w.Verifier.URL)-1]}; return true }},
+		{"audience-other-letter-case", func(w *world, s *spec) bool {
+			i := strings.LastIndex(w.Verifier.URL, "/")
+			s.aud = []string{w.Verifier.URL[:i+1] + strings.ToUpper(w.Verifier.URL[i+1:])}
+			return s.aud[0] != w.Verifier.URL
+		}},
 		{"validity-too-long", func(w *world, s *spec) bool { s.validity = time.Hour; return true }},
 		{"expired-presentation", func(w *world, s *spec) bool { s.nbfOff = -10 * time.Minute; return true }},
 		// over-long AND backdated: created long ago, expiring within the next seconds (only the remaining lifetime is short)
@@ -391,6 +411,93 @@ func TestCheck(t *testing.T) {
 		}
 		run(fm, []defect{a, b}, dp)
 	}
+	// several presentations in one assertion: every one of them has to verify, wherever the submission points.
+	// A carries the credential the descriptor is mapped to (through path_nested); B is a further presentation of the same holder.
+	byName := map[string]defect{}
+	for _, d := range ds {
+		byName[d.name] = d
+	}
+	multi := func(format, name string, onA, onB []string, bHasCred, bFirst bool) (issuedToken bool, ran bool) {
+		a := w.base(format)
+		b := w.base(format)
+		if !bHasCred {
+			b.creds = nil
+		}
+		for _, n := range onA {
+			if d, ok := byName[n]; !ok || !d.apply(w, a) {
+				return false, false
+			}
+		}
+		for _, n := range onB {
+			if d, ok := byName[n]; !ok || !d.apply(w, b) {
+				return false, false
+			}
+		}
+		a.second, a.nested, a.swap = b, true, bFirst
+		if bFirst {
+			a.mapIdx = 1
+		}
+		f, hdr := w.build(a)
+		before := puts()
+		resp, err := node.Do("POST", w.N.Public+"/oauth2/"+w.Verifier.Name+"/token", f.Encode(), hdr)
+		if err != nil {
+			r.Inconclusive("token request failed at transport level: " + err.Error())
+			return false, false
+		}
+		var body map[string]any
+		_ = resp.JSON(&body)
+		at, _ := body["access_token"].(string)
+		got := resp.Status == 200 && at != ""
+		fpr := fmt.Sprintf("s2s-multi/%s/%s", format, name)
+		r.Case(fpr, true)
+		r.Count("token_requests", 1)
+		r.Count("multi_presentation_requests", 1)
+		if len(onA)+len(onB) == 0 {
+			r.Sample(map[string]any{"case": fpr, "status": resp.Status, "body": string(resp.Body), "expected": "token (control)"})
+			return got, true
+		}
+		r.Count("defective_requests", 1)
+		r.Distinct("defects_exercised", "multi/"+name)
+		wit := map[string]any{"format": format, "case": name, "defects_on_mapped_presentation": onA, "defects_on_other_presentation": onB, "other_first": bFirst, "status": resp.Status, "body": string(resp.Body), "form": f}
+		if got {
+			r.Violation("C02/issued-despite/multi/"+name, fmt.Sprintf("access token issued for an assertion of two presentations of which one is defective (%s, %s)", name, format), wit)
+		} else if puts() != before {
+			r.Violation("C02/token-stored-despite/multi/"+name, "access-token row written although the request was refused", wit)
+		}
+		return got, true
+	}
+	for _, format := range []string{"ldp_vc", "jwt_vc"} {
+		for _, bFirst := range []bool{false, true} {
+			for _, bHasCred := range []bool{false, true} {
+				tag := fmt.Sprintf("other-%s-%s", map[bool]string{false: "empty", true: "with-credential"}[bHasCred], map[bool]string{false: "last", true: "first"}[bFirst])
+				ok, ran := multi(format, "control/"+tag, nil, nil, bHasCred, bFirst)
+				if !ran {
+					continue
+				}
+				if !ok {
+					// the node does not take this shape of assertion at all: nothing to learn from refusals of its defective variants
+					r.Unspecified("two-presentation-assertion-refused/" + tag)
+					continue
+				}
+				r.Count("multi_presentation_controls_accepted", 1)
+				for _, n := range []string{"tampered-credential", "tampered-vp-signature", "revoked-credential", "expired-credential", "wrong-audience", "audience-text-extension",
+					"expired-presentation", "validity-too-long", "missing-nonce", "signature-by-other-key"} {
+					multi(format, "mapped-presentation-"+n+"/"+tag, []string{n}, nil, bHasCred, bFirst)
+					if n == "tampered-credential" || n == "revoked-credential" || n == "expired-credential" {
+						if bHasCred {
+							multi(format, "other-presentation-"+n+"/"+tag, nil, []string{n}, bHasCred, bFirst)
+						}
+						continue
+					}
+					multi(format, "other-presentation-"+n+"/"+tag, nil, []string{n}, bHasCred, bFirst)
+				}
+			}
+		}
+	}
+	if r.Get("multi_presentation_controls_accepted") == 0 {
+		fmt.Printf("NOTE: property=C02 no two-presentation assertion was accepted by the node; defective two-presentation assertions were not judged\n")
+	}
+
 	// reused nonce: a second, otherwise valid presentation with the nonce of an accepted one
 	for i := 0; i < r.Pick(3, 20); i++ {
 		s := w.base("ldp_vc")
